@@ -1,6 +1,8 @@
 /-
 Model of the value codecs `asetypes/bytes.go` (`DataType.Bytes`: Go value → wire bytes) and
-`asetypes/goValue.go` (`DataType.GoValue`: wire bytes → Go value), C04 / C05.  Core Lean only.
+`asetypes/goValue.go` (`DataType.GoValue`: wire bytes → Go value), C04 / C05 / C10.  Core Lean only.
+The code as it is after the commits c404295 (`floorDays` for DATE / DATETIME), 20c1efa (UNITEXT as UTF-16LE),
+8cf068f (XML decoded as binary data), 7a20ae8 (DATE / DATEN / BIGDATETIMEN of a wrong length are an error).
 
 Tables (`DataType` constants, `ByteSizes`, decimal precisions, `asetime` units) come from the
 regenerated `Dblib/Gen/Types.lean`; calendar and `asetime` functions from `Model/AseTime.lean`.
@@ -30,7 +32,8 @@ passes; several arms use `binary.LittleEndian` literally).
 * `big.Int.Int64()` = the low 64 bits, two's complement; `big.Int.Bytes()` = minimal big-endian magnitude;
   `ByteSize() = int(math.Ceil(float64(BitLen)/8) + 1)` = `len(Bytes()) + 1`.
 * `[]rune(string)`: UTF-8 decoding, every invalid byte gives U+FFFD (`utf8Dec`); `utf16.Encode` (`utf16Enc`);
-  `string([]rune)`: UTF-8 encoding, invalid runes give U+FFFD (`utf8Enc`); `strings.TrimRight(s, "\x00")`.
+  `utf16.Decode` (`utf16Dec`: a lone surrogate gives U+FFFD); `string([]rune)`: UTF-8 encoding, invalid runes
+  give U+FFFD (`utf8Enc`); `strings.TrimRight(s, "\x00")`.
 
 ## Line protocol
 
@@ -194,6 +197,20 @@ def utf16Enc (r : Nat) : List Nat :=
 
 def utf16EncAll (rs : List Nat) : List Nat := (rs.map utf16Enc).flatten
 
+/-- `utf16.Decode`: a high surrogate followed by a low surrogate is one rune, any other surrogate is U+FFFD -/
+def utf16Dec : List Nat → List Nat
+  | [] => []
+  | [u1] => [if isSurrogate u1 then 0xFFFD else u1]
+  | u1 :: u2 :: rest =>
+    if 0xD800 ≤ u1 ∧ u1 < 0xDC00 ∧ 0xDC00 ≤ u2 ∧ u2 < 0xE000 then
+      (0x10000 + (u1 - 0xD800) * 1024 + (u2 - 0xDC00)) :: utf16Dec rest
+    else (if isSurrogate u1 then 0xFFFD else u1) :: utf16Dec (u2 :: rest)
+
+/-- `units[i] = LittleEndian.Uint16(bs[2*i:])` for `i < len(bs)/2` -/
+def unitsOfLE : Bytes → List Nat
+  | b0 :: b1 :: rest => (b0.toNat + 256 * b1.toNat) :: unitsOfLE rest
+  | _ => []
+
 /-- `strings.TrimRight(s, "\x00")` on the UTF-8 bytes -/
 def trimRightNul (s : Bytes) : Bytes := (s.reverse.dropWhile (· == 0)).reverse
 
@@ -205,17 +222,6 @@ def readAs (w : Nat) (bs : Bytes) (mk : Nat → Val) : VOut :=
   match readLE w bs with
   | some n => .ok (mk n)
   | none => .err
-
-/-- `goValue` of UNITEXT: the loop over the *bytes*; `none` = panic (`bs[i+1]` out of range) -/
-def unitextRunes : Bytes → Option (List Nat)
-  | [] => some []
-  | b :: rest =>
-    if isSurrogate b.toNat then
-      -- dead: a byte is never in the surrogate range; transcribed for completeness
-      match rest with
-      | [] => none
-      | _ :: rest' => (unitextRunes rest').map (0xFFFD :: ·)
-    else (unitextRunes rest).map (b.toNat :: ·)
 
 /-- the arms of `goValue` that do not call `GoValue` again (everything but INTN, UINTN, FLTN) -/
 def goValueArm (t : Nat) (bs : Bytes) : VOut :=
@@ -232,14 +238,14 @@ def goValueArm (t : Nat) (bs : Bytes) : VOut :=
     match bs with
     | [] => .panic
     | b :: _ => .ok (.bool (b == 1))
-  else if t = Types.LONGBINARY ∨ t = Types.BINARY ∨ t = Types.VARBINARY ∨ t = Types.IMAGE then
+  else if t = Types.LONGBINARY ∨ t = Types.BINARY ∨ t = Types.VARBINARY ∨ t = Types.IMAGE ∨ t = Types.XML then
     if bs.length = 0 then .ok .null else .ok (.bytes bs)
   else if t = Types.CHAR ∨ t = Types.VARCHAR ∨ t = Types.TEXT ∨ t = Types.LONGCHAR then
     if bs.length = 0 then .ok .null else .ok (.str bs)
   else if t = Types.UNITEXT then
-    match unitextRunes bs with
-    | none => .panic
-    | some runes => .ok (.str (trimRightNul (utf8EncAll runes)))
+    if bs.length = 0 then .ok .null
+    else if bs.length % 2 ≠ 0 then .err
+    else .ok (.str (trimRightNul (utf8EncAll (utf16Dec (unitsOfLE bs)))))
   else if t = Types.SHORTMONEY ∨ t = Types.MONEY ∨ t = Types.MONEYN then
     -- NewDecimal(0, 0) cannot fail
     if bs.length = 0 then .ok .decnull
@@ -259,6 +265,7 @@ def goValueArm (t : Nat) (bs : Bytes) : VOut :=
       .ok (.dec (if sign == 1 then -i else i) Types.aseDecimalDefaultPrecision Types.aseDecimalDefaultScale)
   else if t = Types.DATE ∨ t = Types.DATEN then
     if bs.length = 0 then .ok .null
+    else if bs.length ≠ 4 then .err
     else match getLE 4 bs with
       | none => .panic
       | some u =>
@@ -288,6 +295,7 @@ def goValueArm (t : Nat) (bs : Bytes) : VOut :=
     else .err
   else if t = Types.BIGDATETIMEN then
     if bs.length = 0 then .ok .null
+    else if bs.length ≠ 8 then .err
     else match getLE 8 bs with
       | none => .panic
       | some u =>
@@ -352,7 +360,7 @@ def ofOpt : Option Bytes → BOut
 
 /-- the 4- or 8-byte layout of SHORTDATE / DATETIME / DATETIMEN written into `bs = make([]byte, length)` -/
 def dateTimeBytes (tt : Int) (length : Int) (bs : Bytes) : Bytes :=
-  let days := AseTime.days tt
+  let days := floorDays tt
   if length = 4 then
     let s := microseconds tt - days * Types.day
     leEncode 2 (toU 16 days) ++ leEncode 2 (toU 16 (minutes s))
@@ -362,12 +370,11 @@ def dateTimeBytes (tt : Int) (length : Int) (bs : Bytes) : Bytes :=
     leEncode 4 (toU 32 days) ++ leEncode 4 (toU 32 s)
   else bs
 
-/-- the overlapping writes `for i { PutUint16(bs[i:], u[i]) }` into `bs` (`len bs = 2·len u`):
-offset `i` receives the low byte of unit `i`, offset `i+1` its high byte (overwritten by the next unit) -/
+/-- the writes `for i { PutUint16(bs[2*i:], u[i]) }` into `bs` (`len bs = 2·len u`) -/
 def unitextWrite : Nat → List Nat → Bytes → Bytes
   | _, [], bs => bs
   | i, u :: us, bs =>
-    unitextWrite (i + 1) us (bs.take i ++ leEncode 2 u ++ bs.drop (i + 2))
+    unitextWrite (i + 1) us (bs.take (2 * i) ++ leEncode 2 u ++ bs.drop (2 * i + 2))
 
 /-- the last part of `Bytes`: `binary.Write` and the `ByteSize` check -/
 def genericBytes (t : Nat) (v : Val) : BOut :=
@@ -405,7 +412,7 @@ def bytes (t : Nat) (v : Val) (maxLen : Int) : BOut :=
       let tt := durationFromDateTime tm - durationFromDateTime epoch1900
       match mkBytes maxLen with
       | none => .panic
-      | some bs => ofOpt (putLE 4 bs (toU 32 (AseTime.days tt)))
+      | some bs => ofOpt (putLE 4 bs (toU 32 (floorDays tt)))
     | _ => .panic                  -- value.(time.Time)
   else if t = Types.TIME ∨ t = Types.TIMEN then
     match v with
